@@ -468,6 +468,7 @@ impl TropicalSubgraphTable {
         let j = uniform.from_f64(self.table[subgraph.id].j_function);
 
         let mut cum_sum = uniform.zero();
+        let mut last_edge = None;
         for edge in edges_in_subgraph {
             let graph_without_edge = subgraph.pop_edge(edge);
             let p_e = uniform.from_f64(self.table[graph_without_edge.id].j_function)
@@ -476,6 +477,15 @@ impl TropicalSubgraphTable {
             cum_sum += &p_e;
             if &cum_sum >= uniform {
                 return (edge, graph_without_edge);
+            }
+            last_edge = Some((edge, graph_without_edge));
+        }
+
+        // the rounded cumulative sum can end just below a uniform number close to one:
+        // the last edge then owns the remaining probability mass
+        if let Some(last) = last_edge {
+            if uniform <= &uniform.one() {
+                return last;
             }
         }
 
